@@ -125,7 +125,7 @@ Exit(c) == /\ pc[c].at \in {"ok", "nofree"}
 Removable(h) == hc[h].cnt = 0 /\ (HoldCounted => hc[h].hold = 0)      \* ShouldRemove() [+ the corrected guard]
 Perms(S) == {s \in [1 .. Cardinality(S) -> S] : \A i, j \in 1 .. Cardinality(S) : i # j => s[i] # s[j]}
 Cat(s, F(_)) == LET f[i \in 0 .. Len(s)] == IF i = 0 THEN << >> ELSE f[i - 1] \o F(s[i]) IN f[Len(s)]
-Unbounded == MaxTicks < 0
+Unbounded == MaxTicks >= 99      \* liveness configuration: ticks and reaping are not counted
 
 \* cleanHostClients(f): range over the map (any order), delete + Close what ShouldRemove()s, stop when empty
 Tick(f) ==
